@@ -56,7 +56,7 @@ func newCtx(parent context.Context) *vctx {
 			c.err = p.err
 			Close(c.done)
 		} else {
-			p.children = append(p.children, c)
+			p.children = push(p.children, c)
 			c.parent = p
 		}
 	} else if parent.Done() != nil {
@@ -108,7 +108,7 @@ type vtimer struct {
 
 func (e *Exec) addTimer(at int64, fire func()) *vtimer {
 	t := &vtimer{at: at, fire: fire, seq: len(e.timers)}
-	e.timers = append(e.timers, t)
+	e.timers = push(e.timers, t)
 	return t
 }
 
@@ -205,7 +205,7 @@ func Advance(d time.Duration) {
 		var due []*vtimer
 		for _, t := range e.timers {
 			if !t.dead && t.at <= target {
-				due = append(due, t)
+				due = push(due, t)
 			}
 		}
 		if len(due) == 0 {
